@@ -193,6 +193,8 @@ pub fn main(spec_path: &str) {
     let mut paste = true;
     let mut signals = false;
     let mut stdout_full = false;
+    let mut stdin_ro = false;
+    let mut stdout_close_after: Option<usize> = None;
     let mut tab_stop: u8 = 8;
     let mut indent_size: u8 = 2;
     let mut prompt_limit: usize = 100;
@@ -248,6 +250,8 @@ pub fn main(spec_path: &str) {
             "printers_late" => printers_late = t[1] == "1",
             "linger" => linger = t[1] == "1",
             "stdout_full" => stdout_full = t[1] == "1",
+            "stdin_ro" => stdin_ro = t[1] == "1",
+            "stdout_close_after" => stdout_close_after = Some(t[1].parse().unwrap()),
             "tab_stop" => tab_stop = t[1].parse().unwrap(),
             "indent_size" => indent_size = t[1].parse().unwrap(),
             "prompt_limit" => prompt_limit = t[1].parse().unwrap(),
@@ -260,6 +264,38 @@ pub fn main(spec_path: &str) {
             "history2" => history2.push(parse_str(t[1])),
             _ => panic!("spec line {l}"),
         }
+    }
+    if stdin_ro {
+        // standard input is the terminal opened READ-ONLY (as with `prog < /dev/tty`): nothing can be written to it
+        use std::os::unix::io::IntoRawFd;
+        let fd = std::fs::OpenOptions::new().read(true).open("/dev/tty").expect("/dev/tty").into_raw_fd();
+        unsafe {
+            libc::dup2(fd, 0);
+            libc::close(fd);
+        }
+    }
+    if let Some(n) = stdout_close_after {
+        // standard output is a pipe whose reader goes away after n bytes (a pager that quits): writes succeed at first and
+        // fail later, while the input terminal stays connected
+        let mut fds = [0i32; 2];
+        unsafe {
+            libc::pipe(fds.as_mut_ptr());
+            libc::dup2(fds[1], 1);
+            libc::close(fds[1]);
+        }
+        let rd = fds[0];
+        std::thread::spawn(move || {
+            let mut left = n;
+            let mut buf = [0u8; 64];
+            while left > 0 {
+                let k = unsafe { libc::read(rd, buf.as_mut_ptr() as *mut libc::c_void, left.min(64)) };
+                if k <= 0 {
+                    break;
+                }
+                left -= k as usize;
+            }
+            unsafe { libc::close(rd) };
+        });
     }
     if stdout_full {
         // standard output that accepts no byte (/dev/full): every write of the editor fails; standard input stays the terminal
